@@ -719,14 +719,33 @@ fn analyzer_level(ctx: &mut Ctx, c: &Cfg, tuples: &[(IpAddr, IpAddr, u16, u16)],
             }
         };
         if which != Which::Unified {
+            // a second analyzer of the same kind on the same thread holds the opposite filter (mode
+            // flipped) and sees every packet right after the first: each decides by its own filter
+            let mut opposite_cfg = c.clone();
+            opposite_cfg.deny = !opposite_cfg.deny;
+            let mut opposite = match which {
+                Which::Tcp => Runner::Tcp(huginn_net_tcp::HuginnNetTcp::new(None, 256).expect("tcp").with_filter(build_tcp(&opposite_cfg)), ttl_cache::TtlCache::new(1024)),
+                Which::Http => Runner::Http(huginn_net_http::HuginnNetHttp::new(None, 256).expect("http").with_filter(build_http(&opposite_cfg))),
+                _ => Runner::Tls(huginn_net_tls::HuginnNetTls::new(256).with_filter(build_tls(&opposite_cfg))),
+            };
             // (the unified analyzer consults its filter in its capture loops only, see below)
             for (i, f) in frames.iter().enumerate() {
                 let mut lines = Vec::new();
+                let mut lines_opposite = Vec::new();
                 for x in &f[slot] {
                     if let Ok(l) = filtered.feed(scenario::T0, x) {
                         lines.extend(l);
                     }
+                    if let Ok(l) = opposite.feed(scenario::T0, x) {
+                        lines_opposite.extend(l);
+                    }
                 }
+                let admit_opposite = ref_filter(&opposite_cfg, &tuples[i].0, &tuples[i].1, tuples[i].2, tuples[i].3);
+                let want_opposite = if admit_opposite { reference[i].clone() } else { vec![] };
+                ctx.judge(lines_opposite == want_opposite, &[], "an analyzer's filter decision depends on the filter of another analyzer asked just before", || {
+                    json!({"analyzer": format!("{which:?}"), "first_filter": c.describe(), "this_filter": opposite_cfg.describe(), "source": format!("{}:{}", tuples[i].0, tuples[i].2), "destination": format!("{}:{}", tuples[i].1, tuples[i].3),
+                           "documented_decision": admit_opposite, "unfiltered_result": reference[i], "filtered_result": lines_opposite})
+                });
                 ctx.judge(lines == expected[i], &[], "an analyzer with the filter installed decides differently from the documented function", || {
                     json!({"analyzer": format!("{which:?}"), "path": "sequential", "config": c.describe(), "source": format!("{}:{}", tuples[i].0, tuples[i].2), "destination": format!("{}:{}", tuples[i].1, tuples[i].3),
                            "documented_decision": expected_admit[i], "unfiltered_result": reference[i], "filtered_result": lines})
